@@ -46,7 +46,7 @@ Theorem C06_safety :
     | Fallthrough s => (length (levels s) <= S level_max)%nat /\ total_dN (levels s) = 0%nat
     | OutOfFuel => True
     end.
-Proof. intros. now apply price_safety. Qed.
+Proof. exact price_safety_full. Qed.
 Theorem C06_fallthrough_characterised :
   forall sample cost alloc conv df notional level_max phantom fuel s s',
     loop sample cost alloc conv df notional level_max phantom fuel s = Fallthrough s' ->
@@ -58,13 +58,13 @@ Theorem C06_return_without_bias_test_refuted :
   exists sample cost alloc garbage s,
     price_run sample cost alloc (fun _ => false) garbage 1%Q 1%Q 5 0 10 2 3 = Fallthrough s
     /\ (length (levels s) - 1 < 5)%nat /\ nconv s = 1%nat /\ map lN (levels s) = [3; 3; 3; 0]%nat.
-Proof. destruct return_without_bias_test as [s H]. do 4 eexists. exists s. exact H. Qed.
+Proof. exact return_without_bias_test_ex. Qed.
 (* F-C06-3 (recorded): with initial_level > maximum_level levels above the maximum are simulated *)
 Theorem C06_level_above_maximum_refuted :
   exists sample cost alloc conv garbage s,
     price_run sample cost alloc conv garbage 1%Q 1%Q 1 0 10 3 3 = Converged s
     /\ map lN (levels s) = [3; 3; 3; 3]%nat /\ (1 < length (levels s) - 1)%nat.
-Proof. destruct level_above_maximum as [s H]. do 5 eexists. exists s. exact H. Qed.
+Proof. exact level_above_maximum_ex. Qed.
 
 (* FULL statement wanted: "a pricing run always terminates".  Proved: for every oracle whose allocation answers
    are bounded (exists Bd, forall k l, alloc k [l] <= Bd) and initial_level <= maximum_level some fuel suffices.
